@@ -65,6 +65,8 @@ def gen_programs(pid, tier, seed, scale=1.0):
     total = int(COUNTS[tier] * scale)
     wsum = sum(w for _, w in cfg["profiles"])
     progs = []
+    if cfg.get("scenarios", True):
+        progs += gen_sig.scenarios(seed, max(4, total // 12))
     for prof, w in cfg["profiles"]:
         n = max(1, total * w // wsum)
         progs += gen_sig.generate(seed, prof, n, size=SIZES[tier])
